@@ -97,16 +97,16 @@ Proof.
   set (S0 := run (empty_state_v (mkCfg true true true true true)) init4).
   set (S1 := run S0 [Append 0 3; ObsBbox 2; SetLeft 3 6]).
   split.
-  - intros [[_ Hr] _]. unfold rootid in Hr. revert Hr. apply notin_memz. vm_compute. reflexivity.
+  - intros [[_ Hr] _]. unfold rootid in Hr. revert Hr. apply (notin_memz 3 (map tid (roots S0))). vm_compute. reflexivity.
   - intro C.
     assert (A : att S1 2).
     { apply (att_child _ 0 2).
-      - apply att_doc; [vm_compute; reflexivity | apply memz_In; vm_compute; reflexivity].
-      - apply In_edge_b. vm_compute. reflexivity. }
+      - apply att_doc; [vm_compute; reflexivity | apply (proj1 (memz_In 0 (ids_l (roots S1)))); vm_compute; reflexivity].
+      - apply (In_edge_b 0 2 (edges_l (roots S1))). vm_compute. reflexivity. }
     assert (E1 : is_container S1 2 = true) by (vm_compute; reflexivity).
     assert (E2 : ocache (objs S1 2) = Some (3, 2, 5, 5)) by (vm_compute; reflexivity).
     assert (E3 : fresh_bbox S1 2 = Some (6, 2, 8, 5)) by (vm_compute; reflexivity).
-    rewrite (C 2 _ A E1 E2) in E3. discriminate.
+    pose proof (C 2 (3, 2, 5, 5) A E1 E2) as E4. rewrite E3 in E4. discriminate.
 Qed.
 Print Assumptions double_listing_breaks_coherence_refuted.
 
